@@ -1,6 +1,11 @@
 """Texts for MANIFEST.json (kept next to the contracts so that claims and contracts change together)."""
 
 CLAIMED = {
+    'C13': dict(
+        engine='pyvc (K1)', category='proof', design_ref='DESIGN.md section 3 / C13',
+        technique='contract-based deductive verification: VCs generated from the real AST of dataCollector.py (nested loop invariants, recurrence-defined aggregates), discharged by z3',
+        text='collect_agent_statistics is proved, for every agent list and every property dictionary, to record for the given time exactly: the set of types present, per type the set of states present, per (type,state) the number of agents, and per numeric property total, max, min and mean equal to the sum, maximum, minimum and total/count over exactly those agents; other times are unchanged; no exception can escape. record_event/reset/statistics are proved against their functional specs.',
+        note='Assumed: reals for numbers (float rounding not modelled; spec and code sum in the same order); uniform numeric property names inside a (type,state) group (stated precondition; without it the mean is order dependent); pandas assembly (df/dict/json, zero filling) is NOT under contract -- it is exercised only by the native replay harness (labelled search, not proof).'),
     'C14': dict(
         engine='pyvc (K1)', category='proof', design_ref='DESIGN.md section 3 / C14',
         technique='contract-based deductive verification: VCs generated from the real AST of model.py, discharged by z3 (invariant + whole-view postconditions)',
@@ -9,5 +14,5 @@ CLAIMED = {
 }
 
 _TODO = 'not yet built in this round: contracts for this property are planned in DESIGN.md but no check is registered until it is green on the unchanged tree and red on its seeded changes'
-NOT_APPLICABLE = {p: _TODO for p in ['C01', 'C02', 'C03', 'C04', 'C05', 'C06', 'C07', 'C08', 'C09', 'C10', 'C11', 'C12', 'C13',
+NOT_APPLICABLE = {p: _TODO for p in ['C01', 'C02', 'C03', 'C04', 'C05', 'C06', 'C07', 'C08', 'C09', 'C10', 'C11', 'C12',
                                      'C15', 'C16', 'C17', 'C18', 'C19', 'C20']}
